@@ -36,8 +36,20 @@ def load_reviewed():
         return {}
     out = {}
     for e in json.load(open(p)):
-        out[(e["fn"], e["callee"], e.get("ordinal", 0))] = e["reason"]
+        out[(e["fn"], e["callee"], e.get("ordinal", 0))] = e
     return out
+
+
+def fn_literals(F, key):
+    f = F.fns.get(key)
+    lits = set()
+    if f and "body" in f:
+        for x in facts.walk(f["body"]):
+            if x.get("k") == "Lit" and x.get("t") in ("str", "int", "char"):
+                lits.add((x["t"], x["v"]))
+            if x.get("p") == "Lit" and isinstance(x.get("lit"), dict):
+                lits.add((x["lit"].get("t"), x["lit"].get("v")))
+    return lits
 
 
 def entry_points(F):
@@ -230,7 +242,15 @@ def run(tier):
                 if sp not in panic_sps:
                     how = "interpreted over all inputs without reaching a panic"
             if how is None and (k, callee, ordinal) in reviewed:
-                how = "reviewed: " + reviewed[(k, callee, ordinal)]
+                e = reviewed[(k, callee, ordinal)]
+                need = [tuple(x) for x in e.get("requires_literals", [])]
+                have = fn_literals(F, k)
+                missing = [x for x in need if x not in have]
+                if missing:
+                    C.ob("C02/review-stale", "%s :: %s #%d" % (k, callee, ordinal), False,
+                         "the reviewed argument for this site relies on literals %s that are no longer in the function: the review does not apply to the current code" % missing, sp)
+                else:
+                    how = "reviewed: " + e["reason"]
                 used_reviews.add((k, callee, ordinal))
             by_how[(how or "UNDISCHARGED").split(":")[0]] += 1
             path = facts.call_path(parent, set(roots), k)
@@ -272,7 +292,7 @@ def run(tier):
                 if it is not None:
                     how = "every iteration starts by taking the next element of finite iterator " + it
             if how is None and (k, "loop", loop_ordinal(f, lp_)) in reviewed:
-                how = "reviewed: " + reviewed[(k, "loop", loop_ordinal(f, lp_))]
+                how = "reviewed: " + reviewed[(k, "loop", loop_ordinal(f, lp_))]["reason"]
             C.ob("C02/loop-terminates", "%s :: loop #%d (%s)" % (k, loop_ordinal(f, lp_), lp_.get("src")), how is not None, "loop without termination argument", sp)
     C.extra["loops"] = nloops
     C.floor("C02/loops", nloops, 38, "loops in reachable functions")
